@@ -15,7 +15,7 @@ RULE = (
     "UTF-8, ping timeout, refused connection, handshake 4xx/5xx, close() from one of on_open/on_message/on_data/on_ping/"
     "on_pong/on_error, close() from a second thread at a generated time (with schedule choices and up to 2 line-level "
     "preemptions; every single preemption point of fixed scenarios in thorough), KeyboardInterrupt from a data callback; "
-    "optional ping thread. Non-trivial: every case (each has an ending); distinct = (ending kind, closer, position, "
+    "optional ping thread; optionally a reconnect interval with a first connection that is lost before the one that ends the run. Non-trivial: every case (each has an ending); distinct = (ending kind, closer, position, "
     "traffic shape, ping settings, schedule)."
 )
 ORACLES = [
@@ -28,7 +28,7 @@ ORACLES = [
     "a second run on the same object is judged like a first run",
 ]
 ASSUMPTIONS = [
-    "reconnect disabled (C15 covers it); built-in dispatcher",
+    "built-in dispatcher; reconnect is set only in the variant where a first connection is lost before the one that ends the run (C15 covers reconnection itself)",
     "for close() racing with the dispatcher thread the close arguments are not judged",
 ]
 
@@ -87,8 +87,13 @@ def run_case(case):
     net = simkit.SimNet(sched)
     runs = case["runs"]
     attempts, expect = [], []
+    base = []
     for r in runs:
         a, ca = attempt_spec(r)
+        base.append(len(attempts))
+        if r.get("lost_first"):
+            # reconnect interval set: a first connection is lost (end of stream) before the one that ends the run
+            attempts.append({"timeline": [[0.3, ["data", simpeers.frame_bytes([{"op": rm.TEXT, "p": b"first"}])]], [r["lost_first"], ["eof"]]], "default_pong": 0.01})
         attempts.append(a)
         expect.append(ca)
     sc = simpeers.Scenario(sched, net, attempts)
@@ -126,6 +131,7 @@ def run_case(case):
         app = websocket.WebSocketApp("ws://c14.test/run", **kw)
         for ri, r in enumerate(runs):
             state["run"] = ri
+            sc.i = base[ri]  # each run starts with its own attempt list, whatever the previous run consumed
             app_holder.clear()
             traces.append([])
             end = r["ending"]
@@ -147,6 +153,8 @@ def run_case(case):
                 rk = {"ping_interval": ping[0], "ping_timeout": ping[1]}
             if end["kind"] == "ping-timeout" and not ping:
                 rk = {"ping_interval": 5, "ping_timeout": 2}
+            if r.get("lost_first"):
+                rk["reconnect"] = 0.5
             nsock = len(net.sockets)
             t0 = sched.now
             exc, ret = None, None
@@ -199,7 +207,7 @@ def run_case(case):
         if bool(o["ret"]) != bool(errs):
             obs.fail(f"{tag}|return-value-vs-on_error|ret={bool(o['ret'])}-errors={len(errs)}", f"run_forever returned {o['ret']!r}, on_error calls: {[e[2] for e in errs]}")
         racing = kind == "thread-close"
-        if kind in ("server-close", "server-close-empty") or (kind == "own-close" and end["in"] != "on_error"):
+        if (kind in ("server-close", "server-close-empty") or (kind == "own-close" and end["in"] != "on_error")) and not r.get("lost_first"):
             if errs:
                 obs.fail(f"{tag}|clean-ending-reported-as-error|{errs[0][2]}", f"on_error({errs[0][2]}) during a run that simply ended")
             if o["ret"] is not False and not errs:
@@ -229,7 +237,7 @@ def _cls(obs, case, sched):
     runs = case["runs"]
     kinds = [r["ending"]["kind"] + (":" + r["ending"]["in"] if "in" in r["ending"] else "") for r in runs]
     obs.cls = tuple(f"end:{k}" for k in kinds) + (f"runs:{len(runs)}", f"ping:{int(bool(case.get('ping')))}", f"preempted:{min(len(sched.preempted_in), 2)}",
-                                                f"traffic:{min(sum(len(r.get('traffic', [])) for r in runs), 4)}")
+                                                f"traffic:{min(sum(len(r.get('traffic', [])) for r in runs), 4)}", f"reconnected:{int(any(r.get('lost_first') for r in runs))}")
     obs.nt = repr((runs, case.get("ping"), case.get("choices"), sorted((case.get("preempt") or {}).items())))
     return obs
 
@@ -287,6 +295,9 @@ def cases(draw):
         if e["kind"] not in ("refused", "reject"):
             r["traffic"] = draw(traffic)
         runs.append(r)
+    for r in runs:
+        if r["ending"]["kind"] in ("server-close", "server-close-empty", "own-close", "thread-close") and draw(st.integers(0, 3)) == 0:
+            r["lost_first"] = draw(st.sampled_from([0.5, 1.0, 6.0]))
     c = {"runs": runs}
     if draw(st.integers(0, 2)) == 0:
         T = draw(st.sampled_from([1, 2, 3]))
